@@ -17,7 +17,6 @@ import (
 	"sort"
 	"strconv"
 	"strings"
-	"sync"
 	"testing"
 	"time"
 
@@ -46,46 +45,13 @@ const (
 	vc8SteerD16 = true
 	// D25 (gP): non-ASCII text in PQL is mis-parsed; such keys are only used through Import.
 	vc8SteerD25 = true
+	// C14 domain (reported to gQ1): fragment.rangeLT/rangeGT mis-handle predicates around 0
+	// (f < -1 includes -1 and 0; f > -1 misses 0 and 1; f < 0 includes 0). The answers of
+	// <, <=, >, >= are therefore only compared before/after the restart, not with the model.
+	vc8RangeOpsAgainstModel = false
+	// C14 domain (reported to gQ1): Min/Max of a field whose extreme is 0 report count 0.
+	vc8SteerMinMaxZeroCount = true
 )
-
-const vc8SW = pilosa.ShardWidth
-
-// ---------------------------------------------------------------------------
-// long-lived server
-
-var (
-	vc8mu    sync.Mutex
-	vc8cmd   *test.Command
-	vc8cases int
-	vc8seq   int
-)
-
-// vc8Server returns the shared server, recycling it every 40 cases so that
-// leftovers of failed (shrinking) cases do not accumulate.
-func vc8Server() *test.Command {
-	vc8mu.Lock()
-	defer vc8mu.Unlock()
-	if vc8cmd != nil && vc8cases >= 40 {
-		vc8cmd.Close()
-		vc8cmd = nil
-	}
-	if vc8cmd == nil {
-		vc8cmd = test.MustRunCommand()
-		vc8cases = 0
-	}
-	vc8cases++
-	vc8seq++
-	return vc8cmd
-}
-
-func vc8CloseServer() {
-	vc8mu.Lock()
-	defer vc8mu.Unlock()
-	if vc8cmd != nil {
-		vc8cmd.Close()
-		vc8cmd = nil
-	}
-}
 
 // ---------------------------------------------------------------------------
 // model
@@ -309,7 +275,16 @@ func (c *vc8Case) fatalf(format string, a ...interface{}) {
 }
 
 func (c *vc8Case) query(idx *vc8Index, q string) pilosa.QueryResponse {
-	resp, err := c.cmd.API.Query(context.Background(), &pilosa.QueryRequest{Index: idx.Name, Query: q})
+	var resp pilosa.QueryResponse
+	var err error
+	func() {
+		defer func() {
+			if r := recover(); r != nil {
+				err = fmt.Errorf("PANIC: %v", r)
+			}
+		}()
+		resp, err = c.cmd.API.Query(context.Background(), &pilosa.QueryRequest{Index: idx.Name, Query: q})
+	}()
 	if err != nil {
 		c.fatalf("query %s on %s: %v", q, idx.Name, err)
 	}
@@ -451,8 +426,8 @@ func (c *vc8Case) step(i int) {
 	t := c.t
 	idx := c.idxs[rapid.IntRange(0, len(c.idxs)-1).Draw(t, "idx")]
 	op := rapid.SampledFrom([]string{
-		"createField", "createField", "set", "set", "set", "set", "clear", "clearRow", "store", "import", "import",
-		"importClear", "importValue", "importValue", "importRoaring", "rowAttrs", "colAttrs", "deleteField", "recreateField",
+		"createField", "set", "set", "set", "set", "clear", "clearRow", "store", "store", "import", "import",
+		"importClear", "importValue", "importValue", "importRoaring", "importRoaring", "rowAttrs", "colAttrs", "deleteField", "recreateField",
 		"recreateIndex", "reopen", "reopen",
 	}).Draw(t, "op")
 	bitFields := c.fieldsOf(idx, func(f *vc8Field) bool { return f.Typ != "int" })
@@ -558,7 +533,10 @@ func (c *vc8Case) step(i int) {
 		c.logf("%s: %s", idx.Name, q)
 		c.cls["clearRow"] = true
 	case "store":
-		dsts := c.fieldsOf(idx, func(f *vc8Field) bool { return f.Typ == "set" })
+		// Store() into a keyed field is not translated (the row key reaches UintArg as a
+		// string) and the error path panics in executeSetRow (result.(bool) on nil):
+		// C15/C06 domain, reported; destinations are unkeyed fields.
+		dsts := c.fieldsOf(idx, func(f *vc8Field) bool { return f.Typ == "set" && !f.Keys })
 		srcs := c.fieldsOf(idx, func(f *vc8Field) bool { return f.Typ != "int" && !f.NoStd })
 		if len(dsts) == 0 || len(srcs) == 0 {
 			return
@@ -1158,7 +1136,12 @@ func (c *vc8Case) fieldBattery(idx *vc8Index, f *vc8Field) []vc8Probe {
 			ps = append(ps, c.probeRow(idx, fmt.Sprintf("Row(%s=%s)", f.Name, vc8rowLit(f, row)), f.bits[row], f.rowAttrs[row], withAttrs))
 		}
 	}
-	if !f.NoStd {
+	if !f.NoStd && f.Typ == "bool" {
+		// Rows(<bool field>) fails with "missing bool argument" (key translation of
+		// the call expects a bool row argument): outside C08, reported to the C16 owner.
+		vkit.Count("steered:Rows-on-bool-field", 1)
+	}
+	if !f.NoStd && f.Typ != "bool" {
 		// Rows(f)
 		resp := c.query(idx, fmt.Sprintf("Rows(%s)", f.Name))
 		ri, ok := resp.Results[0].(pilosa.RowIdentifiers)
@@ -1175,6 +1158,8 @@ func (c *vc8Case) fieldBattery(idx *vc8Index, f *vc8Field) []vc8Probe {
 			}
 		}
 		ps = append(ps, vc8Probe{desc: fmt.Sprintf("%s: Rows(%s)", idx.Name, f.Name), got: "rows=" + strings.Join(got, ","), want: "rows=" + strings.Join(f.rowsWithBits(), ",")})
+	}
+	if !f.NoStd {
 		// Count and Not on the first populated row
 		if rows := f.rowsWithBits(); len(rows) > 0 {
 			row := rows[0]
@@ -1359,7 +1344,10 @@ func (c *vc8Case) intBattery(idx *vc8Index, f *vc8Field) []vc8Probe {
 		if len(f.vals) == 0 {
 			wantV = 0
 		}
-		if vc8SteerD17 && len(shardsWith) > 1 {
+		if vc8SteerMinMaxZeroCount && wantV == 0 {
+			vkit.Count("steered:minmax-zero-count", 1)
+			ps = append(ps, vc8Probe{desc: fmt.Sprintf("%s: %s(field=%s).value", idx.Name, fn, f.Name), got: fmt.Sprint(vc.Val), want: fmt.Sprint(wantV)})
+		} else if vc8SteerD17 && len(shardsWith) > 1 {
 			vkit.Excluded("D17")
 			ps = append(ps, vc8Probe{desc: fmt.Sprintf("%s: %s(field=%s).value", idx.Name, fn, f.Name), got: fmt.Sprint(vc.Val), want: fmt.Sprint(wantV)})
 		} else {
@@ -1399,7 +1387,11 @@ func (c *vc8Case) intBattery(idx *vc8Index, f *vc8Field) []vc8Probe {
 					want[col] = true
 				}
 			}
-			ps = append(ps, c.probeRow(idx, fmt.Sprintf("Row(%s %s %d)", f.Name, o.sym, p), want, nil, false))
+			pr := c.probeRow(idx, fmt.Sprintf("Row(%s %s %d)", f.Name, o.sym, p), want, nil, false)
+			if !vc8RangeOpsAgainstModel && o.sym != "==" && o.sym != "!=" {
+				pr.want = ""
+			}
+			ps = append(ps, pr)
 		}
 	}
 	return ps
@@ -1501,6 +1493,11 @@ func TestVerifC08_Restart(t *testing.T) {
 			idx := &vc8Index{Name: fmt.Sprintf("c8x%dn%d", seq, i), Keys: rapid.IntRange(0, 2).Draw(t, "ikeys") == 0, Track: rapid.Bool().Draw(t, "itrack")}
 			c.idxs = append(c.idxs, idx)
 			c.createIndex(idx)
+			// start with a few fields so that the data operations have targets
+			nf := rapid.IntRange(1, 3).Draw(t, "nfields")
+			for j := 0; j < nf; j++ {
+				c.createField(idx, vc8genField(t, fmt.Sprintf("f%d", j), idx))
+			}
 		}
 		nsteps := rapid.IntRange(4, vkit.Scale(24, 40)).Draw(t, "nsteps")
 		for i := 0; i < nsteps; i++ {
